@@ -2,6 +2,11 @@
 
 # engine -> (regex on the driver's branch tags that makes a case non-trivial, description)
 ENGINE_RULES = {
+    "cnf": (r"(clauses=[1-9]|fin=E:syn|fin=E:io|multiline=1|ok=1)",
+            "DIMACS CNF/WCNF/GCNF + solver log: abstract values rendered through the layout grammar, the crate's own "
+            "writers, mutations, arbitrary bytes, single-token corruptions, faults at random / every offset, line "
+            "sources; every case runs under 5-6 read schedules x chunk sizes on the real parser; non-trivial = at "
+            "least one clause, an error outcome, or a multi-line layout"),
     "renumber": (r"((folded|hashed)=[1-9]|err=(dup|undef|cycle))",
                  "random AIGs (arbitrary numbering / gate order, constants and negations as inputs, shared and unused "
                  "gates, all sections) x 8 configs plus ill-formed variants (cycle, dangling, duplicate); non-trivial = "
@@ -23,6 +28,8 @@ HOOK_COMMITS = []
 
 # (name, path, description)
 ENGINES = [
+    ("cnf", "harness/src/eng_cnf.rs + gen_cnf.rs + lean/Driver/EngCnf.lean",
+     "flussab-cnf parsers/writers under many schedules vs. the View-level Lean parser models vs. independent lexer"),
     ("renumber", "harness/src/eng_renumber.rs + lean/Driver/EngRenumber.lean",
      "Renumber::renumber_aig on random and ill-formed AIGs vs. the Lean model vs. truth-table / simulation oracle"),
     ("writer", "harness/src/eng_writer.rs + lean/Driver/EngWriter.lean",
@@ -154,4 +161,19 @@ PROPS = {
              "that panic are outside C11's domain (the buffer is then re-sent by a later flush, as in std's BufWriter); "
              "they are covered by C14's length invariant only.",
         assumptions=["the sink obeys the Write contract (accepts at most the slice length)"]),
+    "C01": dict(
+        module="Flussab.Props.C01", engines=[("cnf", 4000, 200000, "mix"), ("reader", 1500, 50000, "")],
+        bv_decide_theorems=["multi_scanners_buffer_independent"],
+        claim="Where byte arrival is visible it is a theorem: any two DeferredReaders over the same stream - "
+              "arbitrary different schedules (short reads, Interrupted), chunk sizes, buffer layouts - answer "
+              "request_byte_at_offset / advance / buf()[..n] / position / mark / is_at_end / io_error / check_io_error "
+              "identically and stay related (…_schedule_independent, via the refinement Rel to the abstract View); "
+              "Interrupted is invisible; the _multi scanners do not depend on the buffered amount. Above that the "
+              "parser models are functions of the View by construction; that the Rust parsers are such functions is "
+              "checked by running every input under 5-6 schedules x chunk sizes (1-byte reads, chunk 1/2/8 with "
+              "Interrupted, random, two-piece splits) and comparing with the one model answer.",
+        note="Parser level: DIMACS family + solver log are modelled and tied so far; AIGER and BTOR2 parsers are "
+             "added as their models land (their buf_len()-dependent loops get L1-level lemmas). Trusted: Lean kernel "
+             "(+ bv_decide axioms through C13), harness, audit that format code uses only the modelled reader API.",
+        assumptions=["chunk >= 1", "position() not wrapped"]),
 }
